@@ -7,6 +7,7 @@ import (
 	"strings"
 	"time"
 
+	"verif/harness/inproc"
 	"verif/harness/smlab"
 )
 
@@ -42,6 +43,9 @@ type RunCfg struct {
 	Stats *Stats
 	// noBisect: internal, set while bisectBatch re-runs a prefix
 	noBisect bool
+	// Proto: run over the redis protocol against a running real server instead
+	// of a private state machine (C08 protocol path; C08 oracle only)
+	Proto *ProtoTarget
 }
 
 // Stats accumulates evidence (one per worker, merged at the end).
@@ -136,6 +140,8 @@ type runner struct {
 	class string
 	// C10: what was known about the command's keys before it was applied
 	pre c10pre
+	// protocol path executor (nil: smlab)
+	px *protoExec
 }
 
 // sigFor computes the signature of a failure detected at ops[at].
@@ -197,6 +203,9 @@ func (r *runner) touch(typ, t, k string) {
 // the state machine is caught and reported.
 func (r *runner) applyWrite(o Op) (rep Reply, panicked string) {
 	r.m.Wall = time.Now().Unix()
+	if r.px != nil {
+		return r.px.do(o), ""
+	}
 	defer func() {
 		if e := recover(); e != nil {
 			panicked = fmt.Sprint(e)
@@ -208,6 +217,9 @@ func (r *runner) applyWrite(o Op) (rep Reply, panicked string) {
 
 func (r *runner) read(o Op) Reply {
 	r.m.Wall = time.Now().Unix()
+	if r.px != nil {
+		return r.px.do(o)
+	}
 	return r.lab.Read(o.Cmd())
 }
 
@@ -297,6 +309,9 @@ func RunSeq(cfg RunCfg, ops []Op) (fail *Failure, info SeqInfo, err error) {
 	if cfg.Stats == nil {
 		cfg.Stats = NewStats()
 	}
+	if cfg.Proto != nil {
+		return runSeqProto(cfg, ops)
+	}
 	os.RemoveAll(cfg.Dir)
 	lab, err := smlab.Open(smlab.Opts{Engine: cfg.Engine, ExpirePolicy: cfg.Policy, Dir: cfg.Dir})
 	if err != nil {
@@ -372,10 +387,18 @@ func (r *runner) runPlain() (*Failure, bool) {
 				r.class = r.m.Apply(o).Class
 				return r.fail(i, "panic", "", "state machine panicked: "+pan), true
 			}
-			got = adaptWrite(o, rep)
+			got = rep
+			if r.px == nil {
+				got = adaptWrite(o, rep)
+			} else if r.px.err != nil {
+				return &Failure{At: i, Kind: "io", Detail: r.px.err.Error()}, false
+			}
 			_ = before
 		} else {
 			got = r.read(o)
+		}
+		if r.px != nil && r.px.err != nil {
+			return &Failure{At: i, Kind: "io", Detail: r.px.err.Error()}, false
 		}
 		if got.Kind == "error" {
 			r.st.ErrReplies++
@@ -452,8 +475,10 @@ func (r *runner) runPlain() (*Failure, bool) {
 				return f, false
 			}
 		}
-		if f := r.checkNoExtraKeys(last); f != nil {
-			return f, false
+		if r.px == nil {
+			if f := r.checkNoExtraKeys(last); f != nil {
+				return f, false
+			}
 		}
 	}
 	return nil, false
@@ -543,4 +568,39 @@ func sortedTouch(m map[touchKey]bool) []touchKey {
 		return a.k < b.k
 	})
 	return out
+}
+
+// runSeqProto executes the sequence over TCP against a running server.
+func runSeqProto(cfg RunCfg, ops []Op) (*Failure, SeqInfo, error) {
+	conn, err := inproc.Dial(cfg.Proto.Addr, 30*time.Second)
+	if err != nil {
+		return nil, SeqInfo{}, err
+	}
+	defer conn.Close()
+	ops = append([]Op{}, ops...)
+	now := time.Now().UnixNano()
+	for i := range ops {
+		if IsWrite(ops[i].Name) {
+			// the proposing node stamps the entry with its clock; the model only
+			// needs a value that is far from every expiry (C08: TTLs of ten years)
+			ops[i].Ts = now + int64(i)
+		}
+	}
+	r := &runner{cfg: cfg, m: NewModel(cfg.Policy), st: cfg.Stats, touched: map[touchKey]bool{}, ops: ops,
+		retired: map[string]bool{}, px: &protoExec{conn: conn, ns: cfg.Proto.NS}}
+	r.st.Seqs++
+	fail, _ := r.runPlain()
+	for k, v := range r.m.Dev {
+		r.st.Dev[k] += int64(v)
+	}
+	if fail == nil && r.px.err != nil {
+		return nil, r.info, r.px.err
+	}
+	if fail != nil {
+		if fail.Kind == "io" {
+			return nil, r.info, fmt.Errorf("connection to the server failed at command %d (%s): %s", fail.At, ops[fail.At].String(), fail.Detail)
+		}
+		fail.Sig = "proto/" + fail.Sig
+	}
+	return fail, r.info, nil
 }
